@@ -58,7 +58,9 @@ def run_shard(pid, tier, seed, i, n, out_path, only_case=None):
                 prop.reach_targets(reach)
                 reach.start()
             except Exception:
-                errors.append({"where": "reach", "tb": traceback.format_exc()[-1500:]})
+                # reach probes are bookkeeping for the evidence file (which anchored lines ran); a private function they
+                # name may be gone in a refactored tree - that is reported in the counters, it decides nothing
+                ctx.count("reach_probe_setup_failed")
         state = prop.setup(ctx) if hasattr(prop, "setup") else None
         if only_case is not None:
             todo = [only_case]
